@@ -133,24 +133,34 @@ def run_system(desc):
             match_files(sdir, files, arrays, "stock", 0)
     require(snap_system(mfa) == before, "export-altered-system", "")
     if desc.get("again"):
-        # scenario loop: the same system is changed in place and exported again - the current values are exported
-        for i, f in enumerate(fl):
-            mfa.flows[f["name"]].values[...] = mfa.flows[f["name"]].values * (i + 2) + 1.0
-        for i, s_ in enumerate(stx):
-            mfa.stocks[s_["name"]].stock.values[...] = mfa.stocks[s_["name"]].stock.values * 0.5 - i
-        d2 = convert_to_dict(mfa)
-        dp2 = convert_to_dict(mfa, type="pandas")
-        for f in fl:
-            n = f["name"]
-            require(same_array(d2["flows"][n], mfa.flows[n].values), "re-export-stale-values", f"flow {n} (numpy form)")
-            back = fd.FlodymArray.from_df(dims=mfa.flows[n].dims, df=dp2["flows"][n])
-            require(same_array(back.values, mfa.flows[n].values), "re-export-stale-values", f"flow {n} (pandas form)")
-        for s_ in stx:
-            n = s_["name"]
-            require(same_array(d2["stocks"][n], mfa.stocks[n].stock.values), "re-export-stale-values", f"stock {n} (numpy form)")
+        # scenario loop: the same system is exported, changed in place and exported again INTO THE SAME directory -
+        # afterwards the exports hold the current values, one file per flow / stock quantity
         with tempfile.TemporaryDirectory(prefix="verif_c19_") as tmp2:
-            export_mfa_flows_to_csv(mfa, tmp2)
-            match_files(tmp2, sorted(os.listdir(tmp2)), {f["name"]: mfa.flows[f["name"]] for f in fl}, "flow", 0)
+            fdir2, sdir2 = os.path.join(tmp2, "flows"), os.path.join(tmp2, "stocks")
+            export_mfa_flows_to_csv(mfa, fdir2)
+            export_mfa_stocks_to_csv(mfa, sdir2, with_in_and_out=False)
+            for i, f in enumerate(fl):
+                mfa.flows[f["name"]].values[...] = mfa.flows[f["name"]].values * (i + 2) + 1.0
+            for i, s_ in enumerate(stx):
+                mfa.stocks[s_["name"]].stock.values[...] = mfa.stocks[s_["name"]].stock.values * 0.5 - i
+            d2 = convert_to_dict(mfa)
+            dp2 = convert_to_dict(mfa, type="pandas")
+            for f in fl:
+                n = f["name"]
+                require(same_array(d2["flows"][n], mfa.flows[n].values), "re-export-stale-values", f"flow {n} (numpy form)")
+                back = fd.FlodymArray.from_df(dims=mfa.flows[n].dims, df=dp2["flows"][n])
+                require(same_array(back.values, mfa.flows[n].values), "re-export-stale-values", f"flow {n} (pandas form)")
+            for s_ in stx:
+                n = s_["name"]
+                require(same_array(d2["stocks"][n], mfa.stocks[n].stock.values), "re-export-stale-values", f"stock {n} (numpy form)")
+            export_mfa_flows_to_csv(mfa, fdir2)
+            export_mfa_stocks_to_csv(mfa, sdir2, with_in_and_out=False)
+            files = sorted(os.listdir(fdir2)) if os.path.isdir(fdir2) else []
+            require(len(files) == len(fl), "re-export-csv-file-count", f"{len(files)} files for {len(fl)} flows after exporting twice into one directory: {files[:6]}")
+            match_files(fdir2, files, {f["name"]: mfa.flows[f["name"]] for f in fl}, "flow", 0)
+            files = sorted(os.listdir(sdir2)) if os.path.isdir(sdir2) else []
+            require(len(files) == len(stx), "re-export-csv-file-count", f"{len(files)} files for {len(stx)} stocks after exporting twice into one directory")
+            match_files(sdir2, files, {(s_["name"], "stock"): mfa.stocks[s_["name"]].stock for s_ in stx}, "stock", 0)
     dimsets = {tuple(sorted(f["letters"])) for f in fl}
     funky = any(conservative_key(f["name"]) != f["name"] for f in fl)
     return {"nontrivial": len({len(x) for x in dimsets}) >= 2 or funky, "classes": [f"flows:{min(len(fl), 4)}", f"stocks:{len(stx)}"] + (["names-need-sanitising"] if funky else [])}
